@@ -1,19 +1,29 @@
 (** C02  An instance that fits an eligible up server is not left pending.
 
-    Refuted on the code as it is (known finding):
+    Proved on the model (Sched/PutComplete.v, Sched/InvAgg.v - built by a sub-agent -, Sched/PutTurn.v):
+      C02_aggregates_never_hide in EVERY reachable state (any history of the operation alphabet: servers and buckets added,
+                                moved, removed, going down / frozen / up, every path of a cycle) the tree is well formed
+                                and no stored aggregate hides an up server: every bucket above an up server stores a
+                                free vector >= the server's, contains its partition label and its traits;
+      C02_walk_complete         in every reachable state: if some up server passes Server.put's guard for a pending
+                                instance and the affinity counters leave head-room at every bucket on the way down, the
+                                placement walk from the cell root places the instance (the spread cursor visits every
+                                live child whatever its value; a failed attempt in a sibling subtree only moves cursors);
+      C02_turn_places           a pending instance whose turn it is in the placement loop - not blacklisted, not over
+                                the cap, an identity available if it needs one, not held back by the feasibility
+                                tracker - ends its turn placed whenever such a server exists at that moment;
+      C02_attempt_is_local / C02_attempt_steps.
+    Refuted on the code as it is (known finding), which is why C02_turn_places carries the tracker premise:
       C02_tracker_refuted       the PlacementFeasibilityTracker keys its record of failed placements on a shape that
                                 omits the instance's own traits: a pending instance that needs an unavailable trait
                                 makes a later trait-less instance of the same affinity, which fits an empty up server,
                                 be skipped as "not feasible".
-    Proved on the model (Sched/FrameP.v), for every cell state:
-      C02_attempt_is_local      a fresh placement attempt changes no other instance and no server that is not up;
-      C02_attempt_steps         an attempt is a sequence of primitive transitions (only bucket cursors move when it fails).
-    Partial: completeness of Bucket.put (the stored aggregates of racks and pods never hide a fitting server, the
-    spread cursor visits every live child) is decided by the per-operation correspondence (stored free vectors, labels,
-    traits, counters and cursors of every bucket are in the digest) and the C02 oracle (quiescent cell + probe, leaf
-    scan of all servers). *)
+    Left to the correspondence and the quiescent-probe oracle: that in a quiescent cell the turns ahead of the probe
+    leave the fitting server as it is (the statement's "a cycle changes nothing"). *)
 From Coq Require Import ZArith QArith List Bool Relations.
-From TM Require Import Sched.Vec Sched.Types Sched.Tree Sched.Cycle Sched.Events Sched.MapsP Sched.Steps Sched.FrameP.
+From TM Require Import Sched.Vec Sched.Types Sched.Queue Sched.Tree Sched.Cycle Sched.Events Sched.MapsP Sched.Steps Sched.FrameP
+                       Sched.InvAcct Sched.TurnP Sched.PutComplete Sched.InvAgg Sched.PutTurn.
+From TM Require Import Base.ShapeCanon.
 Import ListNotations.
 Open Scope Z_scope.
 
@@ -41,3 +51,53 @@ Print Assumptions C02_attempt_is_local.
 Theorem C02_attempt_steps : forall c an, psteps c (fst (cell_put c an)).
 Proof. exact cell_put_ps. Qed.
 Print Assumptions C02_attempt_steps.
+
+Theorem C02_aggregates_never_hide : forall dim root level ops,
+  wf_ops (init_cell dim root level) ops -> wf_ops_agg (init_cell dim root level) ops ->
+  let c := run (init_cell dim root level) ops in
+  TreeWf c /\
+  forall n s b, get_srv n (c_servers c) = Some s -> s_state s = Up -> anc c (s_parent s) b ->
+    Forall2 Z.le (s_free s) (b_free b) /\ In (s_label s) (b_labels b) /\ has_traits (bkt_traits b) (s_traits s) = true.
+Proof. intros dim root level ops H1 H2. exact (reachable_TreeWf_AggSound dim root level ops H1 H2). Qed.
+Print Assumptions C02_aggregates_never_hide.
+
+Theorem C02_walk_complete : forall dim root level ops x a s rest,
+  let c := run (init_cell dim root level) ops in
+  wf_ops (init_cell dim root level) ops -> wf_ops_agg (init_cell dim root level) ops ->
+  get_app x (c_apps c) = Some a ->
+  get_srv (s_name s) (c_servers c) = Some s -> s_state s = Up ->
+  put_guard c s a (a_lease a) = true ->
+  down_path c (c_root c) rest (s_name s) ->
+  (forall m b, In m (c_root c :: rest) -> get_bkt m (c_buckets c) = Some b ->
+               under_limit (cget (a_aff a) (b_counters b)) (aff_limit a (b_level b)) = true) ->
+  snd (cell_put c x) = true.
+Proof. exact reachable_put_complete. Qed.
+Print Assumptions C02_walk_complete.
+
+Theorem C02_turn_places : forall rq st x a s rest,
+  TreeWf (l_cell st) -> AggSound (l_cell st) ->
+  get_app x (c_apps (l_cell st)) = Some a -> a_server a = None -> a_blacklisted a = false -> a_rank a <> UNPLACED_RANK ->
+  snd (acquire_identity (c_upd_app x (fun z => RecordSet.set a_renew (fun _ => false) z) (l_cell st)) x (aget x (l_choices st))) = true ->
+  aget x (l_evicted st) = None -> a_once a && a_evicted a = false ->
+  (forall a', stat_eq a a' -> tr_feasible (l_tracker st) a' = true) ->
+  get_srv (s_name s) (c_servers (l_cell st)) = Some s -> s_state s = Up ->
+  put_guard (l_cell st) s a (a_lease a) = true ->
+  down_path (l_cell st) (c_root (l_cell st)) rest (s_name s) ->
+  (forall m b, In m (c_root (l_cell st) :: rest) -> get_bkt m (c_buckets (l_cell st)) = Some b ->
+               under_limit (cget (a_aff a) (b_counters b)) (aff_limit a (b_level b)) = true) ->
+  exists a', get_app x (c_apps (l_cell (place_one rq st x))) = Some a' /\ a_server a' <> None.
+Proof. exact place_one_places. Qed.
+Print Assumptions C02_turn_places.
+
+(** non-vacuity: the sub-agent's three-level example (cell > two racks > three servers; a server goes down and comes up
+    again; a probe that only server 1002 under rack 2002 fits) satisfies the premises and the walk places the probe *)
+Example C02_walk_complete_nonvacuous :
+  wf_ops_aggb (init_cell 2 2000 3) nv_ops = true /\ fits_serverb nv_cell 3 1002 [2002] = true /\ snd (cell_put nv_cell 3) = true.
+Proof. vm_compute. repeat split; reflexivity. Qed.
+
+(** the functions of treadmill/scheduler/__init__.py these theorems were proved about still have the statement
+    skeleton the model was written from (re-extracted from the Python AST on every run, harness/tables_shape.py;
+    kept last so that a difference does not stop the theorems above from being checked) *)
+Theorem C02_source_shape : shapes_ok_C02 = true.
+Proof. vm_compute. reflexivity. Qed.
+Print Assumptions C02_source_shape.
